@@ -37,6 +37,10 @@ P_in_hunk == <<TMinus, TPlus, THH22>>
 P_after_create == <<TMinus, TPlus, [k |-> "hh", os |-> 0, oc |-> 0, ns |-> 1, nc |-> 1], [k |-> "add", s |-> "p"]>>
 P_after_hunk == <<TMinus, TPlus, THH11, [k |-> "del", s |-> "p"], [k |-> "add", s |-> "p"]>>
 
+\* a hunk whose body has one line more on one side than its header announces, with lines of the other side still to come
+P_miscount_add == <<TMinus, TPlus, [k |-> "hh", os |-> 1, oc |-> 3, ns |-> 1, nc |-> 2], [k |-> "ctx", s |-> "c"], [k |-> "add", s |-> "p"], [k |-> "add", s |-> "p"]>>
+P_miscount_del == <<TMinus, TPlus, [k |-> "hh", os |-> 1, oc |-> 2, ns |-> 1, nc |-> 3], [k |-> "ctx", s |-> "c"], [k |-> "del", s |-> "p"], [k |-> "del", s |-> "p"]>>
+
 Init == toks = Prefix /\ trunc = FALSE
 Next == \/ /\ Len(toks) < Len(Prefix) + MaxLen /\ ~trunc /\ \E t \in Alphabet : toks' = Append(toks, t) /\ UNCHANGED trunc
         \/ /\ toks # <<>> /\ ~trunc /\ trunc' = TRUE /\ UNCHANGED toks
